@@ -214,11 +214,13 @@ Proof.
   - exact Hok.
   - exact Hok.
   - cbn. apply ok_housekeeping. exact Hok.
-  - pose proof (ok_srv_step st c Hok) as H. destruct (srv_step st c). exact H.
+  - pose proof (ok_srv_step (wake_up st) c Hok) as H. destruct (srv_step (wake_up st) c). exact H.
   - unfold cli_step. destruct (k_closed (st_cl st c)); [exact Hok|].
     destruct (k_s2c (st_cl st c)) as [|m rest]; [exact Hok|].
     destruct m; cbn [msg_rid]; try exact Hok;
       destruct (out_take _ _) as [[kd o]|]; exact Hok.
+  - exact Hok.
+  - pose proof (ok_srv_step st c Hok) as H. destruct (srv_step st c). exact H.
 Qed.
 
 Lemma ok_run st ops : sinks_ok (st_sv st) -> sinks_ok (st_sv (run st ops)).
